@@ -205,6 +205,52 @@ def Glyph.draw (g : Glyph R) : List (Ev R) :=
    | some (c :: cs) => drawRaw (c :: cs)
    | _ => g.contours.flatMap drawContour) ++ g.components.flatMap drawComponent
 
+/-! ## Drawing into a point pen that predates identifiers
+
+`Contour.drawPoints`, `Component.drawPoints` and `Glyph._drawShallowLoadedContours` first make the call
+with the `identifier` keyword; a pen whose method does not accept it raises `TypeError`, and the same
+call is made again WITHOUT the identifier (a `DeprecationWarning` says that the identifier — and
+nothing else — was discarded).  The three methods fall back independently of each other. -/
+
+/-- which methods of the pen that is drawn into accept the `identifier` keyword -/
+structure PenCaps where
+  /-- `beginPath(identifier=…)` -/
+  path : Bool
+  /-- `addPoint(…, identifier=…)` -/
+  point : Bool
+  /-- `addComponent(…, identifier=…)` -/
+  component : Bool
+deriving DecidableEq, Repr
+
+/-- today's protocol -/
+def PenCaps.full : PenCaps := ⟨true, true, true⟩
+/-- the point-pen protocol as it was before identifiers were added -/
+def PenCaps.old : PenCaps := ⟨false, false, false⟩
+
+/-- `Contour.drawPoints(pen)`: `try: pen.beginPath(identifier=…) except TypeError: pen.beginPath()`, and
+for every point `try: pen.addPoint(…, name=…, identifier=…) except TypeError: pen.addPoint(…, name=…)` -/
+def drawContourTo (caps : PenCaps) (c : Contour R) : List (Ev R) :=
+  .beginPath (if caps.path then c.ident else none) ::
+    (c.points.map (fun p => .addPoint (if caps.point then p else { p with ident := none })) ++ [.endPath])
+
+/-- `Component.drawPoints(pen)`: `try: pen.addComponent(base, t, identifier=…) except TypeError:
+pen.addComponent(base, t)` -/
+def drawComponentTo (caps : PenCaps) (c : Component R) : List (Ev R) :=
+  [.addComponent (if caps.component then c else { c with ident := none })]
+
+/-- one contour of `Glyph._drawShallowLoadedContours(pen, …)`: the same two fallbacks on the stored
+tuples (the one of `addPoint` since repo_fixes/C13-r2-1-shallow-draw-old-style-pen.diff) -/
+def drawRawContourTo (caps : PenCaps) (c : RawContour R) : List (Ev R) :=
+  .beginPath (if caps.path then c.identifier else none) ::
+    (c.points.map (fun p => .addPoint (if caps.point then p.toPoint else { p.toPoint with ident := none })) ++
+      [.endPath])
+
+/-- `Glyph.drawPoints(pen)` for a pen with the given capabilities -/
+def Glyph.drawTo (caps : PenCaps) (g : Glyph R) : List (Ev R) :=
+  (match g.shallow with
+   | some (c :: cs) => (c :: cs).flatMap (drawRawContourTo caps)
+   | _ => g.contours.flatMap (drawContourTo caps)) ++ g.components.flatMap (drawComponentTo caps)
+
 /-! ## `GlyphObjectPointPen` -/
 
 /-- the identifier the pen goes on with: with `skipConflictingIdentifiers` a used one becomes `None` -/
